@@ -137,9 +137,32 @@ structure Share where
   deck : List Entry := []
 deriving Repr, Inhabited
 
+/-- a reference to a container object that a producer took once (`queue = share[f]`) and keeps
+using.  Values are modelled by value; object identity is modelled by `orphan`: the reference is
+*live* (the object IS the field's value) while `orphan = none`; when the field is rebound to
+another object (`share[f] = v`) the reference keeps the old object, whose contents the logger can
+no longer see. -/
+structure Held where
+  sid : Nat
+  f : String
+  /-- `some contents` once the field has been rebound -/
+  orphan : Option Val := none
+  /-- which orphaned object: references that were live on the same field when it was rebound name
+  the same object (meaningful only with `orphan = some _`) -/
+  grp : Nat := 0
+  /-- the field held no list / mapping when the reference was taken: it is never used -/
+  void : Bool := false
+deriving DecidableEq, Repr, Inhabited
+
+def Held.live (h : Held) : Bool := !h.void && h.orphan.isNone
+
 structure World where
   stamp : Option Int := none
   shares : Nat → Share := fun _ => {}
+  /-- the references producers hold, in the order they were taken -/
+  held : List Held := []
+  /-- number of objects orphaned so far (names the next one) -/
+  nobj : Nat := 0
 
 def World.setShare (w : World) (i : Nat) (s : Share) : World :=
   { w with shares := fun j => if j = i then s else w.shares j }
@@ -160,28 +183,77 @@ inductive WOp where
   | setitem (s : Nat) (f : String) (k : String) (a : Atom)
   /-- `share.push(e)` onto the share's deck -/
   | push (s : Nat) (e : Entry)
+  /-- `ref = share[f]`: the producer takes the container object once -/
+  | hold (s : Nat) (f : String)
+  /-- `ref.append(e)` through the `i`-th held reference -/
+  | happend (i : Nat) (e : Elem)
+  /-- `ref[k] = a` through the `i`-th held reference -/
+  | hsetitem (i : Nat) (k : String) (a : Atom)
+  /-- `dk.append(e)` through a held `dk = share.deck` (nothing ever rebinds `.deck`, so this is `push`) -/
+  | hpush (s : Nat) (e : Entry)
 deriving Repr
+
+/-- field `f` of share `s` is bound to another object: the live references to the old object keep it -/
+def World.rebind (w : World) (s : Nat) (f : String) : World :=
+  { w with nobj := w.nobj + 1,
+           held := w.held.map fun h =>
+      if h.sid = s ∧ h.f = f ∧ h.live = true then
+        { h with orphan := some ((dget (w.shares s).data f).getD (.atom .none)), grp := w.nobj }
+      else h }
+
+/-- in-place `share[f].append(e)` (a list in the field; otherwise nothing) -/
+def World.appendTo (w : World) (s : Nat) (f : String) (e : Elem) : World :=
+  let sh := w.shares s
+  match dget sh.data f with
+  | some (.list l) => w.setShare s { sh with data := dset sh.data f (.list (l ++ [e])) }
+  | _ => w
+
+/-- in-place `share[f][k] = a` (a mapping in the field; otherwise nothing) -/
+def World.setitemTo (w : World) (s : Nat) (f : String) (k : String) (a : Atom) : World :=
+  let sh := w.shares s
+  match dget sh.data f with
+  | some (.dict o d) => w.setShare s { sh with data := dset sh.data f (.dict o (dset d k a)) }
+  | _ => w
+
+/-- a mutation through the `i`-th held reference: on the field's own value while the reference is
+live, on the orphaned object otherwise -/
+def World.viaHeld (w : World) (i : Nat) (live : Held → World) (dead : Val → Val) : World :=
+  match w.held[i]? with
+  | none => w
+  | some h =>
+    if h.void then w else
+    match h.orphan with
+    | none => live h
+    | some v =>     -- every reference to that orphaned object sees the mutation
+      { w with held := w.held.map fun h' =>
+          if h'.orphan.isSome ∧ h'.grp = h.grp then { h' with orphan := some (dead v) } else h' }
 
 def World.apply (w : World) : WOp → World
   | .setStamp t => { w with stamp := t }
   | .advance d => { w with stamp := w.stamp.map (· + (d : Int)) }
   | .write s f v =>
     let sh := w.shares s
-    w.setShare s { sh with data := dset sh.data f v, stamp := w.stamp }
+    (w.rebind s f).setShare s { sh with data := dset sh.data f v, stamp := w.stamp }
   | .poke s f v =>
     let sh := w.shares s
-    w.setShare s { sh with data := dset sh.data f v }
-  | .append s f e =>
-    let sh := w.shares s
-    match dget sh.data f with
-    | some (.list l) => w.setShare s { sh with data := dset sh.data f (.list (l ++ [e])) }
-    | _ => w
-  | .setitem s f k a =>
-    let sh := w.shares s
-    match dget sh.data f with
-    | some (.dict o d) => w.setShare s { sh with data := dset sh.data f (.dict o (dset d k a)) }
-    | _ => w
+    (w.rebind s f).setShare s { sh with data := dset sh.data f v }
+  | .append s f e => w.appendTo s f e
+  | .setitem s f k a => w.setitemTo s f k a
   | .push s e =>
+    let sh := w.shares s
+    w.setShare s { sh with deck := sh.deck ++ [e] }
+  | .hold s f =>
+    match dget (w.shares s).data f with
+    | some (.list _) => { w with held := w.held ++ [{ sid := s, f := f }] }
+    | some (.dict _ _) => { w with held := w.held ++ [{ sid := s, f := f }] }
+    | _ => { w with held := w.held ++ [{ sid := s, f := f, void := true }] }
+  | .happend i e =>
+    w.viaHeld i (fun h => w.appendTo h.sid h.f e)
+      fun v => match v with | .list l => .list (l ++ [e]) | v => v
+  | .hsetitem i k a =>
+    w.viaHeld i (fun h => w.setitemTo h.sid h.f k a)
+      fun v => match v with | .dict o d => .dict o (dset d k a) | v => v
+  | .hpush s e =>
     let sh := w.shares s
     w.setShare s { sh with deck := sh.deck ++ [e] }
 
@@ -846,14 +918,29 @@ def entryCells (fs : List String) : List Entry → List (List (Option Val))
 def pushed (sid : Nat) : List Op → List Entry
   | [] => []
   | .w (.push s e) :: rest => if s = sid then e :: pushed sid rest else pushed sid rest
+  | .w (.hpush s e) :: rest => if s = sid then e :: pushed sid rest else pushed sid rest
   | _ :: rest => pushed sid rest
 
-/-- the elements appended to the list in field `q` of share `sid` by a history, in order -/
-def appended (sid : Nat) (q : String) : List Op → List Elem
+/-- what one operation queues onto the list in field `q` of share `sid`: an `append` through the
+share, or an `append` through a held reference that is live (the object it names is the field's
+value) -/
+def queuedBy (w : World) (sid : Nat) (q : String) : Op → List Elem
+  | .w (.append s f e) => if s = sid ∧ f = q then [e] else []
+  | .w (.happend i e) =>
+    match w.held[i]? with
+    | some h => if h.live = true ∧ h.sid = sid ∧ h.f = q then [e] else []
+    | none => []
+  | _ => []
+
+/-- the elements queued by a history that starts in `s`, in order, through either path -/
+def queued (s : S1) (sid : Nat) (q : String) : List Op → List Elem
   | [] => []
-  | .w (.append s f a) :: rest =>
-    if s = sid ∧ f = q then a :: appended sid q rest else appended sid q rest
-  | _ :: rest => appended sid q rest
+  | op :: rest => queuedBy s.world sid q op ++ queued (s.step op).1 sid q rest
+
+/-- every (non-void) reference to field `q` of share `sid` is live: the object the producer holds
+IS the field's value -/
+def refsLive (w : World) (sid : Nat) (q : String) : Prop :=
+  ∀ h ∈ w.held, h.sid = sid → h.f = q → h.orphan = none
 
 /-- no operation of the history replaces field `q` of share `sid` (`write` / `poke`) -/
 def noOverwrite (sid : Nat) (q : String) : List Op → Bool
